@@ -25,6 +25,12 @@ Per core (Python Emulator, Rust LlamaExecutor; never compared with each other):
   (CoreRuntime): step(n) vs step(1) x n; a fresh machine given the architectural state of a machine with history
   under a generated overlay map; two histories that reach the same machine state (c07_runtime.py, c07_machine.py).
 
+* pymachine-history / pymachine-diagnostics / pymachine-run-slicing: the same statement for the Python PC-E500 machine
+  (PCE500Emulator): polling programs with host key events; fresh machine given the state, twin with diagnostic API
+  calls, run(n) slicing (c07_pymachine.py).
+* asm-history: the same source assembles to the same bytes whatever was assembled earlier in the process / earlier in
+  the source / rejected earlier (c07_asm.py; reference = pristine process).
+
 Architectural state/result = BA, I, X, Y, U, S, PC, the whole F byte, running/halted(/off) and the memory
 contents.  TEMP registers, call_sub_level/call_depth, Rust's IMR mirror, instruction length and read logs
 are not compared.
@@ -41,6 +47,9 @@ from .. import pycore, rsclient
 from .. import textparse as TP
 from . import c07_gen as GEN
 from . import c07_pristine as PR
+from . import c07_asm as ASM
+
+asm_script = ASM.asm_script   # looked up by name in the pristine fork server (c07_pristine.PyPristine("asm_script"))
 
 PROPERTY = "C07"
 RULE = ("probe cases: every (prefix|none, opcode) pair of decoder-accepted encodings as probe X (operands "
@@ -66,7 +75,18 @@ RULE = ("probe cases: every (prefix|none, opcode) pair of decoder-accepted encod
         "posted / program rewritten / acknowledged+re-posted ISR bits, ON key press+release) of equal cycle and "
         "instruction count joining a common main loop + handler, non-trivial when >= 2 routes reach the join point "
         "with identical machine state but different host-side IRQ bookkeeping and an interrupt is delivered "
-        "in the 30 compared steps after the join; distinct = case hash.")
+        "in the 30 compared steps after the join; distinct = case hash.  Python machine (PCE500Emulator): generated "
+        "polling programs (main loop + handler reading KIL/KOL/KOH/ISR/IMR/LCD status from the same PCs, column strobes, "
+        "ISR acknowledges, WAIT/HALT) x host key / ON-key events x timers x IMR flavours; pymachine-history = state "
+        "(registers, flags, memory, keyboard/timer/interrupt device state as persisted by save_snapshot) transferred into a "
+        "fresh machine before generated steps, pymachine-diagnostics = twin receiving diagnostic API calls, "
+        "pymachine-run-slicing = run(n) over a generated partition; non-trivial when a transfer / diagnostic call happens "
+        "while device state is live (queued key event, latched request, pending ISR bit, handler active) and the loop "
+        "polled a device register at least twice.  Assembler (sc_asm): block under test (statements rendered from "
+        "decoder-accepted encodings, labels, label references) assembled in a pristine process vs after a generated "
+        "history (earlier assemble() calls with a new / re-used Assembler, earlier sections of the same source, a rejected "
+        "earlier source, every 12th case the blocks of the 11 preceding cases) built from the same (prefix, opcode) with other operand forms; non-trivial when the block has a "
+        "referenced label after a statement whose opcode the history uses with another encoded length.")
 
 REG_FIELDS = ("BA", "I", "X", "Y", "U", "S", "PC", "F")
 CALL_FAMILY = {"CALL", "CALLF", "RET", "RETF", "RETI", "IR"}
@@ -684,13 +704,27 @@ def _mach_shard(task: Tuple[int, int, int, int]) -> Report:
     return MC.run_shard(seed, shard, n_mem, n_conv)
 
 
+def _pym_shard(task: Tuple[int, int, int, bool]) -> Report:
+    from . import c07_pymachine as PM
+
+    seed, shard, n, thorough = task
+    return PM.run_shard(seed, shard, n, thorough)
+
+
+def _asm_shard(task: Tuple[int, int, int]) -> Report:
+    seed, shard, n = task
+    return ASM.run_shard(seed, shard, n)
+
+
 def run(ctx: Ctx) -> Report:
     from . import c07_machine as MC
+    from . import c07_pymachine as PM
 
     rsclient.build()
     zygote()
     GEN.self_test()
     MC.self_test()
+    PM.self_test()
     nshards = ctx.pick(16, 64)
     n_probe = ctx.pick(263, 700)
     n_split = ctx.pick(40, 60)
@@ -698,6 +732,9 @@ def run(ctx: Ctx) -> Report:
     n_rts = ctx.pick(120, 1200)
     reports += ctx.pmap(_rts_shard, [(ctx.seed, i, n_rts) for i in range(16)])
     reports += ctx.pmap(_mach_shard, [(ctx.seed, i, ctx.pick(60, 500), ctx.pick(150, 1500)) for i in range(16)])
+    reports += ctx.pmap(_pym_shard, [(ctx.seed, i, ctx.pick(40, 260), ctx.tier != "quick") for i in range(16)])
+    # the assembler shards run in a pool of their own: its workers are forked from this process, which never assembles
+    reports += ctx.pmap(_asm_shard, [(ctx.seed, i, ctx.pick(36, 220)) for i in range(16)])
     rep = ctx.merge_reports(reports)
     rep.rule = RULE
     rep.exhaustive = False
@@ -732,8 +769,19 @@ def run(ctx: Ctx) -> Report:
         "keyboard FIFO length, ON-key level) is equal; ignored at the join: irq_source, last_fired, last_irq_src, "
         "irq_isr/irq_imr mirrors (host-side bookkeeping); compared afterwards: registers, F, IMR, ISR, IMEM 00-EE, "
         "S and U stack windows, power state.  Tails contain no IR and no RETI outside a delivered handler",
-        "machine-level subchecks exist for the Rust machine only (the Python machine has no multi-instruction step "
-        "call; its memory map and interrupt bookkeeping are covered by C11/C12)",
+        "Python machine (pymachine-*): compared after every step: registers, F, halted, IMR/ISR, whole IMEM, S and U stack "
+        "windows, CRC of external memory (last compared step), keyboard FIFO / key states / latch, irq pending / "
+        "in-interrupt, cycle and instruction counters, timer deadlines.  Transferred into the fresh machine: exactly the "
+        "fields save_snapshot persists for the python backend (external memory incl. IMEM, BA,I,X,Y,U,S,F,PC, halted, "
+        "keyboard.snapshot_state(), counters, timer enable/periods/deadlines, irq pending / in-interrupt / source, key "
+        "latch, last observed IMR/ISR values, keyboard-irq enable, fast_mode); NOT transferred: TEMP registers, "
+        "call_sub_level, call depth, interrupt trace ids, irq counters / last_irq / bit-watch tables, register-access "
+        "telemetry (load_snapshot itself clears it), keyboard metrics.  Programs never write the LCD, the serial port or "
+        "the memory card, so no further device state exists.  Python backend only (no PyO3 build of the LLAMA backend)",
+        "assembler (asm-history): only the bytes inside the address range of the block under test are compared; blocks "
+        "of the history live at disjoint addresses and share no symbol with it; a source rejected identically with and "
+        "without history is labelled, not judged; the worker process itself never assembles (every case runs in two "
+        "fresh processes and is self-contained)",
     ]
     return rep
 
@@ -748,6 +796,12 @@ def replay(ctx: Ctx, case: Dict[str, Any]) -> List[Violation]:
         from . import c07_machine as MC
 
         return MC.replay_case(case)
+    if case.get("kind") == "pymachine-history":
+        from . import c07_pymachine as PM
+
+        return PM.replay_case(case)
+    if case.get("kind") == "asm-history":
+        return ASM.replay_case(case)
     zygote()
     rep = Report()
     cores: Tuple[str, ...] = ("py", "rs")
@@ -771,4 +825,10 @@ def shrink(ctx: Ctx, v: Violation) -> Violation:
         from . import c07_machine as MC
 
         return MC.shrink(v)
+    if kind == "pymachine-history":
+        from . import c07_pymachine as PM
+
+        return PM.shrink(v)
+    if kind == "asm-history":
+        return ASM.shrink(v)
     return c07_shrink.shrink(ctx, v, replay)
